@@ -22,7 +22,7 @@ package hessian
 //@   pure
 //@   defines R.unpackPtrType(typ)
 //@   loop 1 invariant [C16:unpack] true
-//@   ensures [C16,C13:unpacktype] R.tKind(result) != K.Ptr
+//@   ensures [C16,C13:unpacktype] R.tKind(result) != K.Ptr || R.tElem(result) == result
 
 //@ func TypeName
 //@   pure
